@@ -207,6 +207,9 @@ pub enum Op {
         /// byte string (byte / hex producers), carrier BYTES long
         #[serde(default, with = "hexbytes")]
         bytes: Vec<u8>,
+        /// hex producers only: replace the character at this position of the hex string by this (non-hex) byte
+        #[serde(default)]
+        bad_hex: Option<(usize, u8)>,
     },
     Select { a: usize, b: usize, choice: bool, form: u8 },
     Convert { src: usize, kind: Conv },
@@ -553,7 +556,40 @@ fn exec(plan: &Plan, out: &mut RunOut) {
     for (ei, op) in plan.ops.iter().enumerate() {
         let replay = || serde_json::to_value(Plan { ops: vec![op.clone()] }).ok();
         match op {
-            Op::Produce { carrier, wr, how, words, bytes } => {
+            Op::Produce { carrier, wr, how, words, bytes, bad_hex } => {
+                // malformed hex: the documented behaviour is a panic; a wrapper coming back is an accepted invalid argument
+                if let (Some((pos, ch)), How::FromBeHex | How::FromLeHex) = (bad_hex, how) {
+                    let mut hs = hex(bytes).into_bytes();
+                    if !hs.is_empty() && matches!(carrier, Carrier::U1 | Carrier::U2 | Carrier::U4) && *wr == Wr::Odd {
+                        let k = pos % hs.len();
+                        hs[k] = *ch;
+                        let hstr = String::from_utf8_lossy(&hs).to_string();
+                        let g = match (carrier, how) {
+                            (Carrier::U1, How::FromBeHex) => guard(|| Odd::<Uint<1>>::from_be_hex(&hstr).get().to_words().to_vec()),
+                            (Carrier::U1, _) => guard(|| Odd::<Uint<1>>::from_le_hex(&hstr).get().to_words().to_vec()),
+                            (Carrier::U2, How::FromBeHex) => guard(|| Odd::<Uint<2>>::from_be_hex(&hstr).get().to_words().to_vec()),
+                            (Carrier::U2, _) => guard(|| Odd::<Uint<2>>::from_le_hex(&hstr).get().to_words().to_vec()),
+                            (Carrier::U4, How::FromBeHex) => guard(|| Odd::<Uint<4>>::from_be_hex(&hstr).get().to_words().to_vec()),
+                            _ => guard(|| Odd::<Uint<4>>::from_le_hex(&hstr).get().to_words().to_vec()),
+                        };
+                        out.ev(&format!("produce-bad-hex/{:?}/{:?}/{}", carrier, how, matches!(g, Guarded::Panic(_))));
+                        out.state(format!("produce|{:?}::Odd::{:?}|malformed-hex|{}", carrier, how, if matches!(g, Guarded::Panic(_)) { "panic" } else { "accepted" }));
+                        match g {
+                            Guarded::Panic(_) => out.count("expected-panic:malformed-hex"),
+                            Guarded::Done(w) => {
+                                out.viol(
+                                    "C12/accepted-invalid",
+                                    format!("{:?}::Odd::{:?}:malformed-hex", carrier, how),
+                                    format!("{:?} accepted the string {:?}, which is not hex (byte {:#04x} at position {}), and produced Odd = {}", how, hstr, ch, k, hexw(&w)),
+                                    replay(),
+                                );
+                                out.viol("C11/missing-panic", format!("{:?}::Odd::{:?}:malformed-hex", carrier, how), "documented to panic on malformed hex".into(), replay());
+                            }
+                            Guarded::Budget => {}
+                        }
+                        continue;
+                    }
+                }
                 let made = produce(*carrier, *wr, *how, words, bytes);
                 let pname = format!("{:?}::{:?}::{:?}", carrier, wr, how);
                 let st = stated(*carrier, *wr, *how, words, bytes);
@@ -789,9 +825,8 @@ fn exec(plan: &Plan, out: &mut RunOut) {
                     (Carrier::U2, Wr::Odd) => rnd!(Odd<Uint<2>>, W::OddU2),
                     (Carrier::U4, Wr::Odd) => rnd!(Odd<Uint<4>>, W::OddU4),
                     (Carrier::Boxed, Wr::Odd) => {
-                        if *bits == 0 {
-                            continue; // no odd value below 2^0 exists; nothing is promised for this argument
-                        }
+                        // bits == 0: no odd value below 2^0 exists, so nothing is promised about the range (that is
+                        // C19's business) — but whatever wrapper comes back must still be odd
                         if *infallible {
                             guard(|| Some(W::OddB(Odd::<BoxedUint>::random(&mut SimRng(&mut t), *bits))))
                         } else {
@@ -1186,6 +1221,11 @@ fn gen_arg(r: &mut Xoshiro, how: How, n: usize) -> Vec<u64> {
     gen_value(r, n)
 }
 
+/// One time in four a hex producer gets a string with one non-hex byte (the classic neighbours of the hex ranges).
+fn gen_bad_hex(r: &mut Xoshiro) -> Option<(usize, u8)> {
+    if r.chance(1, 4) { Some((r.below(256) as usize, *r.pick(&[b'g', b'G', b'/', b':', b'@', b'`', b' ', b'x', 0x00, 0x7f]))) } else { None }
+}
+
 fn gen_bytes(r: &mut Xoshiro, n: usize) -> Vec<u8> {
     let mut b = vec![0u8; n];
     match r.below(8) {
@@ -1277,7 +1317,7 @@ impl TypedScenario for Pool {
             let how = HOWS[k % HOWS.len()];
             let n = if carrier == Carrier::Boxed { r.range(1, 4) as usize } else { limbs_of(carrier) };
             for _ in 0..8 {
-                ops.push(Op::Produce { carrier, wr, how, words: gen_arg(&mut r, how, n), bytes: gen_bytes(&mut r, 8 * n) });
+                ops.push(Op::Produce { carrier, wr, how, words: gen_arg(&mut r, how, n), bytes: gen_bytes(&mut r, 8 * n), bad_hex: gen_bad_hex(&mut r) });
             }
             return Plan { ops };
         }
@@ -1288,7 +1328,7 @@ impl TypedScenario for Pool {
             ops.push(match r.weighted(&weights) {
                 0 => {
                     let how = *r.pick(&HOWS);
-                    Op::Produce { carrier, wr, how, words: gen_arg(&mut r, how, n), bytes: gen_bytes(&mut r, 8 * n) }
+                    Op::Produce { carrier, wr, how, words: gen_arg(&mut r, how, n), bytes: gen_bytes(&mut r, 8 * n), bad_hex: gen_bad_hex(&mut r) }
                 }
                 1 => Op::Select { a: r.below(64) as usize, b: r.below(64) as usize, choice: r.chance(1, 2), form: r.below(3) as u8 },
                 2 => Op::Convert {
@@ -1342,19 +1382,19 @@ impl TypedScenario for Pool {
         }
         if p.ops.len() == 1 {
             match &p.ops[0] {
-                Op::Produce { carrier, wr, how, words, bytes } => {
+                Op::Produce { carrier, wr, how, words, bytes, bad_hex } => {
                     for i in 0..words.len() {
                         if words[i] > 2 {
                             let mut w = words.clone();
                             w[i] = words[i] & 1 | if i == 0 { 0 } else { 0 };
-                            v.push(Plan { ops: vec![Op::Produce { carrier: *carrier, wr: *wr, how: *how, words: w, bytes: bytes.clone() }] });
+                            v.push(Plan { ops: vec![Op::Produce { carrier: *carrier, wr: *wr, how: *how, words: w, bytes: bytes.clone(), bad_hex: *bad_hex }] });
                         }
                     }
                     for i in 1..bytes.len().saturating_sub(1) {
                         if bytes[i] != 0 {
                             let mut b = bytes.clone();
                             b[i] = 0;
-                            v.push(Plan { ops: vec![Op::Produce { carrier: *carrier, wr: *wr, how: *how, words: words.clone(), bytes: b }] });
+                            v.push(Plan { ops: vec![Op::Produce { carrier: *carrier, wr: *wr, how: *how, words: words.clone(), bytes: b, bad_hex: *bad_hex }] });
                         }
                     }
                 }
